@@ -11,7 +11,7 @@ use std::collections::BTreeMap;
 pub const META: PropertyMeta = PropertyMeta {
     id: "C05",
     level: "exploration",
-    rule: "the C04 case generator biased towards divergence (every device gets 1..7 offline edits on a shared prefix; same-slot updates/deletes, renames to names from a 2-word pool, identical device / file events; clock skew and ties through the clock hook; all generated sync orders). For every case that converges, and per log (identity, account, device, files, every folder): with a = length of the common ancestor and D_d = the records device d appended offline (time, commit, bytes read from the device log before any sync), the converged suffix S must satisfy: multiplicity of each commit hash in S == max over d of its multiplicity in D_d (independent byte-identical events count once, one device's repeated events stay repeated); S contains nothing else; S is non-decreasing in time; each D_d minus the events shared with another device is a subsequence of S (a device's own events keep their relative order); the first a records are the ancestor. Non-trivial = at least two devices have non-empty suffixes for the same log and neither is a subset of the other. Distinct = distinct case.",
+    rule: "the C04 case generator biased towards divergence (every device gets 1..7 offline edits on a shared prefix; same-slot updates/deletes, renames to names from a 2-word pool, identical device / file events; clock skew and ties through the clock hook; all generated sync orders). For every case that converges, and per log (identity, account, device, files, every folder): with a = length of the common ancestor and D_d = the records device d appended offline (time, commit, bytes read from the device log before any sync), the converged suffix S must satisfy: multiplicity of each commit hash in S == max over d of its multiplicity in D_d (independent byte-identical events count once, one device's repeated events stay repeated); S contains nothing else; S is non-decreasing in time; each D_d minus the events shared with another device is a subsequence of S (a device's own events keep their relative order); the first a records are the ancestor. Sub-check merge-moves: the same oracle on cases whose shared history holds a second folder and whose edit mix adds moves of secrets between folders (delete in one folder log, create in the other) and folder creation. Non-trivial = at least two devices have non-empty suffixes for the same log and neither is a subset of the other. Distinct = distinct case.",
     assumptions: &[
         "state consequences (created on one appears on all, latest edit wins, no resurrection) follow from this log oracle together with C02 (every served folder equals the replay of its log) and C04 (all devices serve equal folders)",
         "cases that end in a reported conflict or in a tolerated known C04 finding are classified, not judged by this oracle",
